@@ -93,8 +93,8 @@ func genHist(r *h.Run, idx int) histT {
 	closed := false
 	for i := 0; i < n; i++ {
 		op := opT{Gap: rng.Intn(151)}
-		if rng.Intn(4) == 0 {
-			op.Gap = rng.Intn(20)
+		if rng.Intn(2) == 0 {
+			op.Gap = rng.Intn(50)
 		}
 		x := rng.Intn(100)
 		switch {
@@ -158,6 +158,7 @@ type hrun struct {
 	closes []closeEv
 	log    []string
 	maxD   int64
+	tdown  int64 // clock at close.beforeTeardown (closed flag just published), 0 = not seen
 
 	closedCh chan struct{}
 	closedFl int32
@@ -169,6 +170,7 @@ type hrun struct {
 
 	appClose  int64
 	peerClose int64
+	endClose  int64
 	incon     string
 	shape     []string
 	outcome   string
@@ -673,6 +675,7 @@ func (x *hrun) judge(r *h.Run) {
 	x.mu.Lock()
 	closes := append([]closeEv(nil), x.closes...)
 	effs := [2][]dl.Effect{append([]dl.Effect(nil), x.eff[0]...), append([]dl.Effect(nil), x.eff[1]...)}
+	tdown := x.tdown
 	x.mu.Unlock()
 	if len(closes) == 0 {
 		if x.incon == "" {
@@ -701,38 +704,43 @@ func (x *hrun) judge(r *h.Run) {
 		case x.appClose != 0 && c.T >= x.appClose:
 			x.outcome = "app-close"
 			r.Count("closes_app", 1)
+			x.decided = x.incon == ""
 		case x.peerClose != 0 && c.T >= x.peerClose:
 			x.outcome = "peer-close"
 			r.Count("closes_peer", 1)
+			x.decided = x.incon == ""
+		case x.endClose != 0 && c.T >= x.endClose:
+			// the harness closed a connection that had reached its final state
+			// (survived every deadline, or never fired): final() decided
+			r.Count("closes_by_harness_at_end", 1)
 		default:
 			x.outcome = "other-close"
 			r.Count("closes_other", 1)
 			if x.incon == "" {
 				x.incon = fmt.Sprintf("connection closed with %v although neither side closed it", c.Err)
 			}
-			return
-		}
-		if x.expFire {
-			// a timer was armed and the harness closed first: nothing to decide
-			x.decided = false
-		} else {
-			x.decided = x.incon == ""
 		}
 		return
 	}
 	r.Count("closes_"+dirName(dir)+"_timeout", 1)
 	x.outcome = "fire-" + dirName(dir)
-	v := dl.CheckTimeoutClose(effs[dir], c.T)
+	// the instant the connection was marked closed, as sharp as observed
+	tc := c.T
+	if tdown != 0 && tdown < tc {
+		tc = tdown
+	}
+	v := dl.CheckTimeoutClose(effs[dir], tc)
 	if v.Symptom == "" {
 		if v.Racy {
 			r.Count("timeout_closes_governed_by_a_race_window", 1)
 		}
+		x.decided = x.incon == ""
 		return
 	}
 	x.decided = false
 	sig := "c16:" + dirName(dir) + ":" + v.Symptom
 	if v.Symptom == "timeout-without-deadline" {
-		o := dl.CheckTimeoutClose(effs[1-dir], c.T)
+		o := dl.CheckTimeoutClose(effs[1-dir], tc)
 		if o.Symptom == "" {
 			sig = "c16:" + dirName(1-dir) + ":wrong-error"
 			v.Detail = fmt.Sprintf("only a %s deadline was pending (bound %s) but the connection was closed with %v", dirName(1-dir), dl.Ms(o.Bound), c.Err)
@@ -764,6 +772,23 @@ func runCoreBatch(r *h.Run, cfg outb.Cfg, hists []histT, mon *dl.Monitor) {
 			v.(*hrun).onClose(err)
 		}
 	}
+	// closeWithError (the path every timer takes) reports here right after it
+	// published the closed flag: a sharper stamp than the asynchronous OnClose
+	nbio.VerifSetPoint(func(name string, c *nbio.Conn) {
+		if name != "close.beforeTeardown" {
+			return
+		}
+		t := dl.Now()
+		if v, ok := byConn.Load(c); ok {
+			x := v.(*hrun)
+			x.mu.Lock()
+			if x.tdown == 0 {
+				x.tdown = t
+			}
+			x.mu.Unlock()
+		}
+	})
+	defer nbio.VerifSetPoint(nil)
 	var runs []*hrun
 	for _, hs := range hists {
 		x := &hrun{cfg: cfg, hs: hs, closedCh: make(chan struct{}), handled: make(chan struct{}, 8)}
@@ -809,9 +834,7 @@ func runCoreBatch(r *h.Run, cfg outb.Cfg, hists []histT, mon *dl.Monitor) {
 			end := x.maxD + negMargin
 			x.mu.Unlock()
 			if !x.isClosed() {
-				if x.appClose == 0 {
-					x.appClose = dl.Now()
-				}
+				x.endClose = dl.Now()
 				x.logf("harness Close()")
 				_ = x.srv.Close()
 			}
@@ -819,6 +842,12 @@ func runCoreBatch(r *h.Run, cfg outb.Cfg, hists []histT, mon *dl.Monitor) {
 				end = dl.Now() + int64(2*time.Second)
 			}
 			dl.SleepUntil(end)
+			// the engine delivers close notifications asynchronously
+			select {
+			case <-x.closedCh:
+				time.Sleep(20 * time.Millisecond)
+			case <-time.After(5 * time.Second):
+			}
 			if x.gate != nil {
 				close(x.gate)
 				x.gate = nil
@@ -836,9 +865,20 @@ func runCoreBatch(r *h.Run, cfg outb.Cfg, hists []histT, mon *dl.Monitor) {
 		r.Seen("history_shapes", sh)
 		r.Seen("cells", cfg.Cell()+fmt.Sprintf("/p%d", cfg.NPoller))
 		x.mu.Lock()
+		tEnd := dl.Inf
+		if len(x.closes) > 0 {
+			tEnd = x.closes[0].T
+		}
+		if x.tdown != 0 && x.tdown < tEnd {
+			tEnd = x.tdown
+		}
 		for dir := 0; dir < 2; dir++ {
 			st := dl.Initial()
 			for _, e := range x.eff[dir] {
+				if e.Call >= tEnd {
+					r.Count("calls_on_a_closed_connection", 1)
+					break
+				}
 				nx := dl.Step(st, e)
 				switch {
 				case e.MustClear && e.Kind == "wclear":
